@@ -45,6 +45,8 @@ func pssSign(sk *rsa.PrivateKey, input, salt []byte) []byte {
 	return sig
 }
 
+var c10buf = make([]byte, 0, 4096)
+
 // long-lived decode targets of the issuer side (one per token type for the whole run)
 var (
 	c01srv1 = &type1.BasicPrivateTokenRequest{}
@@ -250,7 +252,11 @@ func init() {
 	// c10.verify <ty> <type> <nonce> <ctx> <keyid> <auth> <in> <prf> | <keyseed>
 	replayers["c10.verify"] = func(c *Ctx, a []string) string {
 		ty, _ := strconv.ParseUint(a[1], 10, 16)
-		tok := tokens.Token{TokenType: uint16(ty), Nonce: unhx(a[2]), Context: unhx(a[3]), KeyID: unhx(a[4]), Authenticator: unhx(a[5])}
+		// the token's fields are views into one long-lived receive buffer that the next token overwrites
+		nb, cb, kb, ab := unhx(a[2]), unhx(a[3]), unhx(a[4]), unhx(a[5])
+		c10buf = append(append(append(append(c10buf[:0], nb...), cb...), kb...), ab...)
+		o1, o2, o3 := len(nb), len(nb)+len(cb), len(nb)+len(cb)+len(kb)
+		tok := tokens.Token{TokenType: uint16(ty), Nonce: c10buf[:o1:o1], Context: c10buf[o1:o2:o2], KeyID: c10buf[o2:o3:o3], Authenticator: c10buf[o3:]}
 		var err error
 		// one issuer object per key for the whole run: verification must not depend on what was verified before
 		if a[0] == "1" {
@@ -528,6 +534,19 @@ func runC10(c *Ctx) {
 			t2 := tok
 			t2.Nonce = tok.Nonce[:31]
 			verify("field-length", ty, keyseed, t2, "fail")
+			// over-long fields: the input is the concatenation as carried, whatever its length; an authenticator for the
+			// empty input (or for the first 98 bytes) is not one for this token
+			for _, grow := range []int{1, 34, 200} {
+				t3 := tok
+				t3.KeyID = append(append([]byte{}, tok.KeyID...), r.Bytes(grow)...)
+				verify("field-overlong:honest-auth", ty, keyseed, t3, "fail")
+				t3.Authenticator = c10PRF(ty, keyseed, nil)
+				verify("field-overlong:auth-of-empty-input", ty, keyseed, t3, "fail")
+				t3.Authenticator = c10PRF(ty, keyseed, t3.AuthenticatorInput())
+				verify("field-overlong:auth-of-carried-input", ty, keyseed, t3, "ok")
+				t3.Authenticator = c10PRF(ty, keyseed, t3.AuthenticatorInput()[:98])
+				verify("field-overlong:auth-of-truncated-input", ty, keyseed, t3, "fail")
+			}
 			t2 = tok
 			t2.Nonce = append(append([]byte{}, tok.Nonce...), tok.Context[0])
 			t2.Context = tok.Context[1:]
@@ -878,6 +897,14 @@ func c02Scribbled(c *Ctx, r *Rng) {
 		c.Count(fmt.Sprintf("scribbled-args:type%d", ty))
 		c.Direct(out == "-", "after the caller reused its argument buffers: "+out, map[string]any{"type": ty, "panic": firstLines(lastPanic, 6)})
 	}
+}
+
+// c10PRF: the VOPRF evaluation of an arbitrary input under an issuer key, by the dependency itself
+func c10PRF(ty int, keyseed, input []byte) []byte {
+	suite := map[int]oprf.Suite{1: oprf.SuiteP384, 5: oprf.SuiteRistretto255}[ty]
+	out, err := oprf.NewVerifiableServer(suite, oprfKey(suite, keyseed)).FullEvaluate(input)
+	must(err)
+	return out
 }
 
 func c02Direct(c *Ctx, w *c03World, ty int, kind string, resp []byte, out string, mustReject bool, ti []byte) {
